@@ -52,6 +52,16 @@ def raw_quote_callers(ctx, rule):
                 if q not in names:
                     continue
                 owner = "%s.%s" % (m.name, getattr(fn, "name", "<lambda>"))
+                # a private helper that is only called by module-level statements assembles constants (a regex built from
+                # escaped characters) when the module is imported: no url text goes through it
+                fname = getattr(fn, "name", None)
+                if fname is not None and m.name not in RAW_QUOTE_OWNERS:
+                    inside_defs = set(id(x) for d in ast.walk(m.tree) if isinstance(d, (ast.FunctionDef, ast.Lambda)) for x in ast.walk(d) if x is not d)
+                    uses = [x for x in ast.walk(m.tree) if isinstance(x, ast.Call) and isinstance(x.func, ast.Name) and x.func.id == fname]
+                    if uses and all(id(x) not in inside_defs for x in uses):
+                        n += 1
+                        ctx.ob(rule, "caller/%s" % owner, True, "", m.site(c), sample="%s only runs at import time, on constants" % owner)
+                        continue
                 n += 1
                 ctx.ob(rule, "caller/%s" % owner, m.name in RAW_QUOTE_OWNERS,
                        "%s calls the plain escaper %s on url text: the '%%' of an escape that safe unquoting kept ('%%20', '%%25', undecodable bytes) is escaped again; url text is quoted with safely_quote" % (owner, q),
